@@ -55,3 +55,16 @@ def check(ctx):
                   "bits): the result is wrong for the values whose rounding carries")
     rets = [n for n in ast.walk(c64) if isinstance(n, ast.Return)]
     ctx.check(len(rets) == 1 and isinstance(rets[0].value, ast.Tuple) and len(rets[0].value.elts) == 2, "T9-params", c64, "crc64 returns a (high, low) pair", "")
+    # crc16 renders the checksum as exactly two bytes, most significant first, for every value (leading zero byte kept)
+    r16 = [n for n in ast.walk(c16) if isinstance(n, ast.Return) and n.value is not None]
+    ok = bool(r16)
+    for r in r16:
+        v = r.value
+        fixed = isinstance(v, ast.Call) and call_name(v) == "struct.pack" and v.args and const_str(v.args[0]) in ("!H", ">H") and len(v.args) == 2
+        to_bytes = isinstance(v, ast.Call) and isinstance(v.func, ast.Attribute) and v.func.attr == "to_bytes" and \
+            len(v.args) >= 1 and src(v.args[0]) == "2" and ("'big'" in src(v) or '"big"' in src(v))
+        sized = isinstance(v, ast.Call) and "bytify" in (call_name(v) or src(v.func)) and \
+            any(k.arg == "size" and src(k.value) == "2" for x in ast.walk(v) if isinstance(x, ast.Call) for k in x.keywords)
+        ok = ok and (fixed or to_bytes or sized)
+    ctx.check(ok, "T9-params", c16, "crc16 returns a fixed two-byte big-endian rendering (struct.pack('!H', crc) or equivalent)",
+              "a variable-width rendering drops the leading zero byte of checksums below 0x100 (1 input in 256, e.g. the empty packet)")
